@@ -12,6 +12,14 @@ import sys
 
 pid = sys.argv[1]
 extra = ""
+# optional second argument "w7": legal-but-rare spellings, numeric precision, exception paths
+if len(sys.argv) > 2 and sys.argv[2] == "w7":
+    extra = ("Look in particular for: spellings and structures that the formats allow but sample files rarely use (upper / lower case of tags and attributes, "
+             "quoting styles, namespace prefixes, comments, CDATA sections, byte-order marks, tabs, trailing blanks, unusual line ends, leading zeros or missing "
+             "leading zeros, very large or very small numbers, zero or equal start and end, unsorted input, empty containers); numeric precision and rounding (int vs "
+             "float, truncation vs rounding, order of multiplication and division, accumulated error); and the exception path (valid input rejected, wrong exception "
+             "type, exception swallowed). Avoid the over-familiar patterns: state left on a reused reader / writer object, a memo with a coarse key, a set() making an "
+             "order hash-dependent, grouping by key instead of by run, `>` turned into `>=` on the 32-column limit, comparing times after rounding to milliseconds. ")
 # optional second argument "w6": the wave-6 wording (interactions, options, rarely taken paths)
 if len(sys.argv) > 2 and sys.argv[2] == "w6":
     extra = ("Look in particular for: the interaction of two features or two options that are each fine alone; rarely used constructor / method options and "
